@@ -11,6 +11,15 @@ overlap, real span bookkeeping and merge) around a stub run_ocr that reads chara
 1..2 (quick) / 1..3 (thorough) lines over a 9-text alphabet (shorter / equal / longer than the maximal line width, periodic text, a blank
 stretch that yields an empty part) x batch size {1, 4}.
 
+(e) environment answers: the line lists of (d) again, with ONE call that process_lines makes to a dependency failing - the recogniser (run_ocr)
+raising the CUDA out-of-memory RuntimeError, a numpy allocation raising MemoryError - every such call in turn (mc/faults.py Injector.explore),
+plus all lists of 4 (quick) / 5 (thorough) lines over a 3-text alphabet at batch size 1, which need several recogniser calls (the failure
+also comes after an earlier batch succeeded).  The call may raise (any exception); every line it RETURNS is judged like any other result.
+
+(f) histories on one live engine: constructed with max_line_width W0 in {none, 32, 64, 128}, used or not, then `engine.max_line_width`
+assigned 1 (quick) / 1..2 (thorough) other values of {32, 64, 128}, process_lines after every assignment: each use must equal the reference
+merge of the line's 25 % windows for the width that is configured at the time of the call, and must not lose painted characters.
+
 Oracle: a boring reference model with explicit slice arithmetic (cut ceil(o/2) characters from the text merged so far,
 floor(o/2) from the next part; o = overlap detected between the text merged so far and the next part).
 """
@@ -22,11 +31,12 @@ ID = 'C15'
 
 MANIFEST = dict(
     technique='explicit-state enumeration of all part lists (input tree), all window splittings, and all short line lists through the real process_lines(model_type=transformer) with a stub run_ocr; real merge vs a reference model with provenance-tagged logits',
-    text='Bounded exhaustive: every list of 1-3 parts of length 0-3 over {a,b}, every pair of parts up to length 4 over {a,b,c}, and every window splitting (all widths/overlaps, clean or with one noisy character in an overlap) of every text over {a,b} of length 5-7 (quick) / 5-9 (thorough); text and provenance-tagged logits of the real merge must equal the reference model, and the statement-level facts (length = sum of parts minus overlaps, one logit row per character, first/last part kept, zero overlap = concatenation) are checked separately; every list of 1-2 (quick) / 1-3 (thorough) painted lines over a 9-text alphabet goes through the real window splitting, span bookkeeping and merge of process_lines, and each line must equal the reference merge of its own windows. Added sub-sweeps: the real engine end to end on painted lines, a subsequence clause for noise-free windows, every reading of a text of up to 6 (quick) / 8 (thorough) characters as two true windows (unique exact overlap => the merged text is the text), and parts of 260 characters. A fourth two-window alphabet: letter, combining accent and precomposed letter.',
+    text='Bounded exhaustive: every list of 1-3 parts of length 0-3 over {a,b}, every pair of parts up to length 4 over {a,b,c}, and every window splitting (all widths/overlaps, clean or with one noisy character in an overlap) of every text over {a,b} of length 5-7 (quick) / 5-9 (thorough); text and provenance-tagged logits of the real merge must equal the reference model, and the statement-level facts (length = sum of parts minus overlaps, one logit row per character, first/last part kept, zero overlap = concatenation) are checked separately; every list of 1-2 (quick) / 1-3 (thorough) painted lines over a 9-text alphabet goes through the real window splitting, span bookkeeping and merge of process_lines, and each line must equal the reference merge of its own windows. Added sub-sweeps: the real engine end to end on painted lines, a subsequence clause for noise-free windows, every reading of a text of up to 6 (quick) / 8 (thorough) characters as two true windows (unique exact overlap => the merged text is the text), and parts of 260 characters. A fourth two-window alphabet: letter, combining accent and precomposed letter. Environment answers: the engine line lists again with one dependency call of process_lines failing (the recogniser raising an out-of-memory RuntimeError, a numpy allocation raising MemoryError; every call in turn, also in a later batch of a 4-line list) - the call may raise, but every line it returns must still be the merge of all of its windows. Histories on one live engine: max_line_width assigned (lowered / raised, before or after the first use) between calls of process_lines - every call must split and stitch for the width configured at that time.',
     note='The overlap detector (find_best_overlap) is taken from the implementation and only sanity-checked (range, CER<1); alphabet and lengths are bounded.',
     ref='3/C15')
 
-BOUNDS = {'quick': dict(Lmin=5, Lmax=7, pair_len=4, engine_lines=2, two_len=6), 'thorough': dict(Lmin=5, Lmax=9, pair_len=5, engine_lines=3, two_len=8)}
+BOUNDS = {'quick': dict(Lmin=5, Lmax=7, pair_len=4, engine_lines=2, two_len=6, fault_lines=2, fault_long_lines=4, reconf_lines=1, reconf_depth=1),
+          'thorough': dict(Lmin=5, Lmax=9, pair_len=5, engine_lines=3, two_len=8, fault_lines=3, fault_long_lines=5, reconf_lines=2, reconf_depth=2)}
 BOUNDS['replay'] = BOUNDS['quick']
 
 
@@ -52,6 +62,11 @@ def shards(tier):
             out.append({'kind': 'windows', 'L': L, 'w': w})
     for f in range(len(ENGINE_TEXTS)):
         out.append({'kind': 'engine', 'first': f})
+    for f in range(len(ENGINE_TEXTS)):
+        out.append({'kind': 'engine-fault', 'first': f})
+        out.append({'kind': 'engine-reconf', 'first': f})
+    for f in FAULT_LONG_TEXTS:
+        out.append({'kind': 'engine-fault-long', 'first': f})
     for L in range(1, b['two_len'] + 1):
         for first in 'abc':
             out.append({'kind': 'two', 'L': L, 'first': first})
@@ -86,8 +101,11 @@ ENGINE_TEXTS = ['abc', 'abcdefgh', 'abcdefghi', 'qrstuvwxyzabcd', 'hgfedcbazyxwv
                 'abcdefghijkl________mnopqr', 'zyxwvutsrqponmlkjihgfedcbaz']
 
 
-def engine_windows(text):
-    n, ov = MLW // CW, (MLW // 4) // CW
+def engine_windows(text, mlw=MLW):
+    """the 25 %-overlapping windows of a painted text for an engine whose max_line_width is mlw (None: no limit configured)"""
+    if mlw is None:
+        return [text]
+    n, ov = mlw // CW, (mlw // 4) // CW
     if len(text) <= n:
         return [text]
     parts, start, end = [], 0, n
@@ -107,7 +125,7 @@ def paint_text(text):
     return img
 
 
-def make_stub_engine(batch_size):
+def make_stub_engine(batch_size, mlw=MLW):
     import json
     import os
     import torch
@@ -116,8 +134,11 @@ def make_stub_engine(batch_size):
     os.makedirs(d, exist_ok=True)
     js = os.path.join(d, f'c15-transformer-{os.getpid()}.json')
     with open(js, 'w') as f:
-        json.dump({'line_px_height': 8, 'line_vertical_scale': 1.0, 'checkpoint': 'none.pt', 'characters': [chr(97 + i) for i in range(26)],
-                   'net_name': 'stub', 'max_line_width': MLW}, f)
+        cfg = {'line_px_height': 8, 'line_vertical_scale': 1.0, 'checkpoint': 'none.pt', 'characters': [chr(97 + i) for i in range(26)],
+               'net_name': 'stub'}
+        if mlw is not None:
+            cfg['max_line_width'] = mlw
+        json.dump(cfg, f)
     eng = BaseEngineLineOCR(js, torch.device('cpu'), batch_size=batch_size, model_type='transformer')
     os.remove(js)
     seen = []
@@ -139,19 +160,45 @@ def make_stub_engine(batch_size):
     return eng, seen
 
 
-def check_engine(case, ctx):
+RECONF_WIDTHS = (32, 64, 128)        # max_line_width letters of the re-configuration histories: 4 / 8 / 16 characters per window, overlap 1 / 2 / 4
+FAULT_LONG_TEXTS = (0, 3, 5)         # indices into ENGINE_TEXTS: one window / two windows / four windows
+ENGINE_FAULTS = ('oom', 'alloc')     # environment answers: the recogniser raises an out-of-memory RuntimeError / a numpy allocation raises MemoryError
+
+
+def reconf_histories(depth):
+    """every history: engine constructed with W0 (None = no max_line_width in the configuration), then max_line_width assigned 1..depth
+    times (each time a value different from the current one), with / without a use of the engine before the first assignment"""
+    out = []
+    for w0 in (None,) + RECONF_WIDTHS:
+        hists = [[w0]]
+        for _ in range(depth):
+            hists = [h + [w] for h in hists for w in RECONF_WIDTHS if w != h[-1]]
+            for h in hists:
+                for use_first in (1, 0):
+                    out.append((h, use_first))
+    return out
+
+
+def engine_fault_injector(eng, fault):
+    from mc import faults
+    if fault == 'oom':
+        return faults.Injector([(eng, 'run_ocr')],
+                               lambda name: RuntimeError('CUDA out of memory. Tried to allocate 2.00 GiB (injected by the harness)'))
+    return faults.Injector(faults.numpy_allocators(), faults.memory_error)
+
+
+def check_engine_result(ctx, K, desc, texts, mlw, tr, lg, co, partial=False):
+    """every line of one process_lines result against the reference merge of the line's own 25 % windows (width mlw); -> True if no violation.
+    partial: the call survived a failing dependency - a line it reports as None was not returned and is not judged."""
     from pero_ocr.ocr_engine.line_ocr_engine import find_best_overlap
-    texts = [ENGINE_TEXTS[i] for i in case['engine']]
-    ctx.state(('engine', tuple(case['engine']), case['bs']))
-    eng, seen = make_stub_engine(case['bs'])
-    tr, lg, co = eng.process_lines([paint_text(t) for t in texts])
-    ctx.executed()
-    desc = f'process_lines(model_type=transformer, max_line_width={MLW}) on painted texts {texts}, batch_size={case["bs"]}'
     if len(tr) != len(texts):
-        ctx.violation('text-kept', f'{ID}/engine/result-count', f'{desc}: {len(tr)} results')
-        return
+        ctx.violation('text-kept', f'{K}/result-count', f'{desc}: {len(tr)} results')
+        return False
+    facts = []
     for k, text in enumerate(texts):
-        parts = [p.replace('_', '') for p in engine_windows(text)]
+        if partial and tr[k] is None:
+            continue
+        parts = [p.replace('_', '') for p in engine_windows(text, mlw)]
         ref = parts[0]
         overlaps = []
         for nxt in parts[1:]:
@@ -160,29 +207,108 @@ def check_engine(case, ctx):
             ref = ref[:len(ref) - (o + 1) // 2] + nxt[o // 2:]
         it = iter(tr[k])
         if not all(ch in it for ch in text.replace('_', '')):
-            ctx.violation('text-kept', f'{ID}/engine/line-loses-characters', f'{desc}: line {k} -> {tr[k]!r} lost characters of {text!r}')
-            return
+            ctx.violation('text-kept', f'{K}/line-loses-characters', f'{desc}: line {k} -> {tr[k]!r} lost characters of {text!r}')
+            return False
         if tr[k] != ref:
-            ctx.violation('text-kept', f'{ID}/engine/line-text-differs-from-merge-of-its-windows',
+            ctx.violation('text-kept', f'{K}/line-text-differs-from-merge-of-its-windows',
                           f'{desc}: line {k} -> {tr[k]!r}; its windows {parts} merge (overlaps {overlaps}) to {ref!r}')
-            return
+            return False
         rows = lg[k].shape[0]
         if rows != len(tr[k]) or list(co[k]) != [0, len(tr[k])]:
-            ctx.violation('one-logit-row-per-character', f'{ID}/engine/logit-rows-or-window',
+            ctx.violation('one-logit-row-per-character', f'{K}/logit-rows-or-window',
                           f'{desc}: line {k}: {rows} logit rows, window {co[k]} for {len(tr[k])} characters')
-            return
+            return False
         dense = np.asarray(lg[k].toarray()) if hasattr(lg[k], 'toarray') else np.asarray(lg[k])
         got = ''.join(chr(97 + int(np.argmax(np.where(r == 0, -80, r)))) for r in dense)
         if got != tr[k]:
-            ctx.violation('one-logit-row-per-character', f'{ID}/engine/logit-rows-do-not-spell-the-text', f'{desc}: line {k}: rows spell {got!r}, text {tr[k]!r}')
+            ctx.violation('one-logit-row-per-character', f'{K}/logit-rows-do-not-spell-the-text', f'{desc}: line {k}: rows spell {got!r}, text {tr[k]!r}')
+            return False
+        facts.append((k, parts, ref == text.replace('_', '')))
+    return facts
+
+
+def check_engine(case, ctx):
+    texts = [ENGINE_TEXTS[i] for i in case['engine']]
+    hist = case.get('mlw') or [MLW]
+    fault = case.get('fault')
+    plain = len(hist) == 1 and fault is None
+    skey = ('engine', tuple(case['engine']), case['bs'])
+    if not plain:
+        skey += (tuple(hist), case.get('use_first', 1), fault)
+    ctx.state(skey)
+    eng, seen = make_stub_engine(case['bs'], hist[0])
+    lens = []
+    for step, mlw in enumerate(hist):
+        if step:
+            eng.max_line_width = mlw                     # the event: a public attribute of the live engine is assigned
+        elif len(hist) > 1 and not case.get('use_first', 1):
+            continue                                     # re-configured before its first use
+        K = f'{ID}/engine' + ('/after-max_line_width-changed' if step else '')
+        desc = (f'process_lines(model_type=transformer, max_line_width={mlw}) on painted texts {texts}, batch_size={case["bs"]}'
+                + (f', engine constructed with max_line_width={hist[0]}, {"used, " if case.get("use_first", 1) else ""}then max_line_width '
+                   f'assigned {hist[1:step + 1]}' if step else ''))
+        if fault is not None and step == len(hist) - 1:
+            if not check_engine_under_fault(case, ctx, eng, seen, texts, mlw, fault, K, desc):
+                return
+            continue
+        tr, lg, co = eng.process_lines([paint_text(t) for t in texts])
+        ctx.executed()
+        facts = check_engine_result(ctx, K, desc, texts, mlw, tr, lg, co)
+        if facts is False:
             return
-        if len(parts) > 1:
-            ctx.nontrivial(('engine', tuple(case['engine']), case['bs'], k), 'split-lines-merged')
-        if '' in parts:
-            ctx.tag('engine-empty-part')
-        if len(parts) > 1 and ref == text.replace('_', ''):
-            ctx.tag('engine-merge-restores-the-text')
-    ctx.outcome(('engine', tuple(len(t) for t in tr)))
+        lens.append(tuple(len(t) for t in tr))
+        for k, parts, restored in facts:
+            if plain:
+                if len(parts) > 1:
+                    ctx.nontrivial(('engine', tuple(case['engine']), case['bs'], k), 'split-lines-merged')
+                if '' in parts:
+                    ctx.tag('engine-empty-part')
+                if len(parts) > 1 and restored:
+                    ctx.tag('engine-merge-restores-the-text')
+            elif step and len(parts) > 1:
+                ctx.nontrivial(skey + (step, k), 'engine-split-after-max_line_width-changed')
+                prev = hist[step - 1]
+                if prev is None or mlw < prev:
+                    ctx.tag('engine-max_line_width-lowered-on-a-live-engine')
+                else:
+                    ctx.tag('engine-max_line_width-raised-on-a-live-engine')
+                if not case.get('use_first', 1):
+                    ctx.tag('engine-max_line_width-changed-before-the-first-use')
+    if fault is None:
+        ctx.outcome(('engine', tuple(lens)) if not plain else ('engine', lens[0]))
+
+
+def check_engine_under_fault(case, ctx, eng, seen, texts, mlw, fault, K, desc):
+    """every fault point of one process_lines call: the call may raise (accepted, whatever the exception); lines it returns obey the property"""
+    inj = engine_fault_injector(eng, fault)
+    calls = None
+    split = any(len(engine_windows(t, mlw)) > 1 for t in texts)
+    for k, site, (kind, val) in inj.explore(lambda: eng.process_lines([paint_text(t) for t in texts])):
+        ctx.executed()
+        if k is None:
+            if kind == 'raised':
+                raise val                                # no fault injected: as in the plain sweep
+            calls = len(seen)
+            if check_engine_result(ctx, K, desc, texts, mlw, *val) is False:
+                return False
+            continue
+        name = 'recogniser-out-of-memory' if fault == 'oom' else 'allocation-failure'
+        ctx.tag(f'engine-{name}-injected')
+        if fault == 'oom' and calls == 1 and len(texts) > 1 and split:
+            # the fault-free run handed all lines to the recogniser in ONE call: the failing batch holds several lines, one of them as parts
+            ctx.nontrivial(('engine-fault', tuple(case['engine']), case['bs'], k), 'engine-out-of-memory-in-a-batch-of-several-lines-with-a-split-line')
+        if fault == 'oom' and k > 0:
+            ctx.tag('engine-out-of-memory-after-an-earlier-batch-succeeded')
+        if kind == 'raised':
+            ctx.tag('engine-fault-reported-to-the-caller')
+            ctx.outcome(('engine-fault', 'raised', type(val).__name__))
+            continue
+        ctx.tag('engine-fault-survived')
+        d = f'{desc}; environment: call {k} to a dependency ({site[2]} in {site[1]}) failed ({name}) and process_lines returned a result'
+        if check_engine_result(ctx, f'{K}/after-{name}', d, texts, mlw, *val, partial=True) is False:
+            return False
+        ctx.outcome(('engine-fault', 'returned', tuple(None if t is None else len(t) for t in val[0])))
+    return True
 
 
 def windows(text, w, step):
@@ -236,6 +362,27 @@ def run_shard(shard, ctx, tier):
             for rest in itertools.product(range(n), repeat=L - 1):
                 for bs in (1, 4):
                     guarded_check(mod, {'engine': [shard['first']] + list(rest), 'bs': bs}, ctx)
+    elif shard['kind'] == 'engine-fault':
+        # environment answers: the same line lists, and ONE call of process_lines to a dependency fails (every such call in turn)
+        n = len(ENGINE_TEXTS)
+        for L in range(1, b['fault_lines'] + 1):
+            for rest in itertools.product(range(n), repeat=L - 1):
+                for bs in (1, 4):
+                    for fault in ENGINE_FAULTS:
+                        guarded_check(mod, {'engine': [shard['first']] + list(rest), 'bs': bs, 'fault': fault}, ctx)
+    elif shard['kind'] == 'engine-fault-long':
+        # lists long enough to need several recogniser calls (batch_size 1: three lines per call): the recogniser also fails AFTER the
+        # results of an earlier batch were stored
+        for rest in itertools.product(FAULT_LONG_TEXTS, repeat=b['fault_long_lines'] - 1):
+            guarded_check(mod, {'engine': [shard['first']] + list(rest), 'bs': 1, 'fault': 'oom'}, ctx)
+    elif shard['kind'] == 'engine-reconf':
+        # histories on ONE live engine: constructed with one max_line_width, (used,) max_line_width assigned, used again
+        n = len(ENGINE_TEXTS)
+        for L in range(1, b['reconf_lines'] + 1):
+            for rest in itertools.product(range(n), repeat=L - 1):
+                for bs in (1, 4):
+                    for hist, use_first in reconf_histories(b['reconf_depth']):
+                        guarded_check(mod, {'engine': [shard['first']] + list(rest), 'bs': bs, 'mlw': hist, 'use_first': use_first}, ctx)
     else:
         L, w = shard['L'], shard['w']
         for tx in itertools.product('ab', repeat=L):
@@ -376,9 +523,16 @@ def describe(tier):
         'rule': 'all lists of 1..3 parts (length 0..3, {a,b}); all pairs of parts up to pair_len over {a,b,c}; all window splittings '
                 '(2..4 windows, every width and overlap) of all texts over {a,b} with Lmin<=L<=Lmax, clean / one substituted / one '
                 'deleted character in the first overlap; each with logits of len and len+2 rows. state = distinct part list. '
-                'Non-trivial: a list whose merges have both a zero and a positive detected overlap.',
+                'Non-trivial: a list whose merges have both a zero and a positive detected overlap. Engine: all lists of 1..engine_lines painted '
+                'lines x batch size {1,4}; the same lists (1..fault_lines) x every failing dependency call (recogniser out of memory, numpy '
+                'allocation) + all lists of fault_long_lines lines over 3 texts at batch size 1; all lists of 1..reconf_lines lines x batch size x '
+                'every history construct(W0), [use], 1..reconf_depth assignments of max_line_width (each followed by a use).',
         'bounds': BOUNDS[tier], 'alphabets': {'lists': 'ab', 'pairs': 'abc', 'windows': 'ab (+c as noise)'},
         'assumptions': ['the detected overlap is the implementation\'s find_best_overlap (sanity-checked only)'],
         'min_nontrivial': 20, 'required_tags': ['parts-longer-than-255', 'unique-exact-overlap', 'second-window-only-repeats-the-overlap', 'zero-overlap', 'odd-overlap', 'empty-part', 'noisy-overlap', 'split-lines-merged', 'engine-empty-part',
-                          'engine-merge-restores-the-text'],
+                          'engine-merge-restores-the-text', 'engine-recogniser-out-of-memory-injected', 'engine-allocation-failure-injected',
+                          'engine-out-of-memory-in-a-batch-of-several-lines-with-a-split-line',
+                          'engine-out-of-memory-after-an-earlier-batch-succeeded', 'engine-split-after-max_line_width-changed',
+                          'engine-max_line_width-lowered-on-a-live-engine', 'engine-max_line_width-raised-on-a-live-engine',
+                          'engine-max_line_width-changed-before-the-first-use'],
     }
